@@ -94,6 +94,26 @@ func genJournalPlan(t *rapid.T) JournalPlan {
 	}
 	p.Tx = txs[ns]
 	p.Tx.NoWrite = false
+	if rapid.IntRange(0, 7).Draw(t, "aligned") == 0 {
+		// A journal segment that ends exactly on a sector boundary: 64 (or 128)
+		// records of page size + 8 bytes after a 512-byte header. The next header
+		// then sits right behind the last record, with no padding in between.
+		p.PageSize = rapid.SampledFrom([]uint32{512, 1024}).Draw(t, "aligned_ps")
+		p.Sector = 512
+		if p.Sync == pager.SyncOff {
+			p.Sync = pager.SyncFull
+		}
+		per := rapid.SampledFrom([]int{64, 64, 128, 63, 65}).Draw(t, "per_segment")
+		all := pager.WalTx{Tx: pager.Tx{NewSize: 300, Fill: 3}}
+		small := pager.WalTx{Tx: pager.Tx{NewSize: 300, Fill: 4, Writes: []pager.Write{{Pgno: 299, Ver: 7}}}}
+		p.Setup = []pager.WalTx{all, small}
+		tx := pager.Tx{NewSize: 300, Fill: 5, SpillAfter: per, Rollback: rapid.Bool().Draw(t, "aligned_rb")}
+		for pg := 2; pg < 2+per+rapid.IntRange(2, 9).Draw(t, "extra"); pg++ {
+			tx.Writes = append(tx.Writes, pager.Write{Pgno: uint32(pg), Ver: uint32(pg * 3)})
+		}
+		p.Tx = tx
+		p.Stride = 2
+	}
 	return p
 }
 
